@@ -619,6 +619,12 @@ fn gen_set_program(rng: &mut Rng, sc: &Scenario, m: &Model, offsets: &[(usize, u
         Some(o) => o,
         None => *rng.pick(offsets),
     };
+    // rarely, on the fixed-metadata VM: offsets no buffer can be built for (the sum overflows). The
+    // unchanged code panics there (the run is abandoned); an implementation that reports an error
+    // instead must leave the VM as it was.
+    if sc.kind == Kind::Fixed && sc.progs[pid].offsets.is_none() && sc.progs[pid].safe() && rng.chance(1, 150) {
+        return Op::SetProgram { pid, doff: usize::MAX - 3, eoff: *rng.pick(&[0usize, 8, usize::MAX - 20]) };
+    }
     Op::SetProgram { pid, doff, eoff }
 }
 
@@ -687,7 +693,7 @@ fn assume_correct(sc: &Scenario, gm: &mut Option<Model>, op: &Op, pending_veto: 
         }
         Op::SetProgram { pid, doff, eoff } => {
             let m = gm.as_mut().unwrap();
-            let ok = m.load_accepted(&sc.progs[*pid]) && !(pending_veto && m.verifier != V_DEFAULT);
+            let ok = m.load_accepted(&sc.progs[*pid]) && !(pending_veto && m.verifier != V_DEFAULT) && !(sc.kind == Kind::Fixed && absurd_offsets(*doff, *eoff));
             if ok {
                 m.prog = Some(*pid);
                 if sc.kind == Kind::Fixed {
